@@ -457,7 +457,7 @@ def run(ctx):
 
 def _columns_rule(ctx, W):
     """vector.array({...}): _array_from_columns builds the structured array from the dict of columns"""
-    ctx.rule("C06.columns", "_array_from_columns on a dict of columns given in any order: one numpy.empty(shape, dtype) whose dtype lists the fields in canonical "
+    ctx.rule("C06.columns", "_array_from_columns on a dict of columns given in any order: one allocation numpy.empty|zeros|ones(shape, dtype) whose dtype lists the fields in canonical "
                             "coordinate order (extra fields after, in the given order), each field typed by the dtype of its OWN column (float64 for a plain sequence), "
                             "and every field filled from the column of the same name; differing shapes raise ValueError")
     env = W.module_env("vector.backends.numpy")
@@ -487,7 +487,7 @@ def _columns_rule(ctx, W):
                 empties.append((args, kwargs))
                 return Opaque(("numpy.empty", len(empties) - 1), "ndarray")
 
-            I = Interp(W, ext_models={"numpy.empty": m_empty}, opaque_attrs=oa)
+            I = Interp(W, ext_models={"numpy.empty": m_empty, "numpy.zeros": m_empty, "numpy.ones": m_empty}, opaque_attrs=oa)
             label = "{" + ", ".join(names) + "}" + (f" [{plain[0]}: list]" if plain else "")
             try:
                 I.call_function(fn, [cols], {})
@@ -499,7 +499,7 @@ def _columns_rule(ctx, W):
             want = sorted(names, key=lambda x: order.index(x) if x in order else len(order))  # stable: extras keep the given order
             msg = ""
             if len(empties) != 1:
-                msg = f"{len(empties)} numpy.empty calls"
+                msg = f"{len(empties)} array allocations (numpy.empty/zeros/ones)"
             else:
                 args, kwargs = empties[0]
                 dt = kwargs.get("dtype", args[1] if len(args) > 1 else None)
